@@ -5,7 +5,7 @@
 
 package interp
 
-//@ props C19 C20 C13
+//@ props C19 C20 C13 C15
 
 // An execution environment made by NewExecEnv has its name in Args[0] and a
 // variable map.
@@ -89,6 +89,10 @@ package interp
 //@ func (*ExecEnv).expand
 //@   loop "for mode&Assign != 0" invariant 0 <= i && i < len(word) && len(fields) >= 1
 //@   ensures err == nil ==> len(fields) >= 1
+//@   assert[C15] at call interp.(*field).join#2: literal-joins-with-the-quoting-of-its-context: arg2 == (mode&Quote != 0)
+//@   assert[C15] at call interp.(*field).join#3: literal-joins-with-the-quoting-of-its-context: arg2 == (mode&Quote != 0)
+//@   assert[C15] at call interp.(*field).join#4: quoted-text-joins-quoted: arg2
+//@   assert[C15] at call interp.(*ExecEnv).expand#1: double-quoted-parts-expand-in-quote-mode: arg2&Quote != 0
 
 // ---- parameter expansion (C13): the POSIX table as a decision table ----
 //
@@ -136,6 +140,7 @@ package interp
 // expandTilde reports how far it consumed: off literals of word beyond the
 // first one, and col bytes of the literal it stopped in.
 //@ func (*ExecEnv).expandTilde
+//@   ensures[C15] no-tilde-expansion-in-quoted-context: mode&(Arith|Quote) != 0 ==> off == 0 && col == 0 && f.b == old(f.b) && f.quote == old(f.quote)
 //@   requires f != nil
 //@   loop "for" invariant 0 <= off && off <= len(word) && 0 <= col
 //@   loop "for" invariant off == 0 ==> col + len(s) == len(s#0)
@@ -165,7 +170,7 @@ package interp
 //@   assert[C14] at call strings.ContainsRune: ifs-source: arg0 == (has(env.vars, "IFS") ? env.vars["IFS"].Value : " \t\n")
 //@   assert[C14] at call interp.(*field).join#2: piece-has-no-ifs: forall p: i <= p && p < j && boundary(s, p) ==> !containsrune(ifs, rune_at(s, p))
 //@   assert[C14] at call interp.(*field).join#3: tail-has-no-ifs: forall p: i <= p && p < len(s) && boundary(s, p) ==> !containsrune(ifs, rune_at(s, p))
-//@   assert[C14] at call interp.(*field).join#1: quoted-kept-whole: arg1 == f.b[i] && arg2
+//@   assert[C14 C15] at call interp.(*field).join#1: quoted-kept-whole: arg1 == f.b[i] && arg2
 
 //@ func (*field).empty
 //@   props C14 C19
@@ -174,6 +179,28 @@ package interp
 
 //@ func (*ExecEnv).join
 //@   ensures result != nil
+
+// ---- quoted text survives (C15) ----
+//
+// A field is a sequence of segments, each with a flag saying whether it was
+// quoted.  join adds one segment verbatim with the flag it is given; quoted
+// source text is joined with the flag set (expand); tilde expansion is not
+// applied in quoted context; splitting never cuts a quoted segment (C14); and
+// pattern() escapes every pattern character of a quoted segment so that it
+// matches only itself, while unquoted segments are passed on verbatim.
+//@ func (*field).join
+//@   ensures[C15] segment-added-verbatim: len(f.b) == old(len(f.b)) + 1 && len(f.quote) == old(len(f.quote)) + 1 && f.b[len(f.b)-1] == s && f.quote[len(f.quote)-1] == quote
+//@   ensures[C15] earlier-segments-kept: (forall j: 0 <= j && j < old(len(f.b)) ==> f.b[j] == old(f.b[j])) && (forall j: 0 <= j && j < old(len(f.quote)) ==> f.quote[j] == old(f.quote[j]))
+
+//@ spec func patspecial(c int) bool = c == '?' || c == '*' || c == '[' || c == '\\'
+//@ func (*field).pattern
+//@   props C15 C13 C19
+//@   assert[C15 C13] at call strings.IndexAny: escapes-the-pattern-characters: arg1 == "?*[\\"
+//@   assert[C15 C13] at call strings.(*Builder).WriteString#1: quoted-rest-has-nothing-to-escape: forall k: 0 <= k && k < len(arg1) ==> !patspecial(arg1[k])
+//@   assert[C15 C13] at call strings.(*Builder).WriteString#2: quoted-chunk-has-nothing-to-escape: forall k: 0 <= k && k < len(arg1) ==> !patspecial(arg1[k])
+//@   assert[C15 C13] at call strings.(*Builder).WriteByte#1: pattern-character-gets-a-backslash: arg1 == '\\'
+//@   assert[C15 C13] at call strings.(*Builder).WriteByte#2: then-the-character-itself: patspecial(arg1)
+//@   assert[C15] at call strings.(*Builder).WriteString#3: unquoted-segment-verbatim: arg1 == f.b[i] && !f.quote[i]
 
 //@ func (*field).merge
 //@   requires t != nil
